@@ -347,7 +347,7 @@ Definition encode_rune (r : Z) : bytes :=
    result (rune, size, err, state, lastRuneSize) *)
 Fixpoint rd_rune_fill (fuel : nat) (s : reader) {struct fuel} : reader :=
   match fuel with
-  | O => s
+  | O => set_err s 99
   | S f =>
     if (rw s <? rr s + 4) && negb (full_rune (window s)) && (rerr s =? 0) then rd_rune_fill f (fill s) else s
   end.
@@ -378,8 +378,9 @@ Definition rd_writeto_wt (s : reader) : bytes * Z * reader :=
   let s0 := mkR (rbuf s) (rr s) (rw s) (rerr s) (-1) (rtotal s) (rsrc s) (rpulled s) in
   let '(out, s1) := write_buf [] s0 in
   let '(d, e, rest) := src_drain (rsrc s1) in
-  (* since the fix: if m > 0 && b.r == b.w { b.r, b.w = 0, 0 }  (write_buf into bytes.Buffer always leaves r = w) *)
-  let z := (0 <? blen d) && (rr s1 =? rw s1) in
+  (* since the fix: after writeBuf, if b.r == b.w { b.r, b.w = 0, 0 }  (write_buf into bytes.Buffer always leaves
+     r = w; in the non-WriterTo path rd_writeto the first fill has the same effect) *)
+  let z := rr s1 =? rw s1 in
   (out ++ d, e, mkR (rbuf s1) (if z then 0 else rr s1) (if z then 0 else rw s1) (rerr s1) (rlast s1)
                     (rtotal s1 + blen d) rest (rpulled s1 + blen d)).
 
@@ -404,3 +405,9 @@ Definition w_readfrom_rf (src : script) (s : writer) : Z * Z * writer :=
           (blen d, e, mkW [] (wcap s) (werr s) (wtotal s + blen d) (wsink s) (wout s ++ d))
   | _ => w_readfrom src s
   end.
+
+(* Reset(r) / Reset(w): forget everything, start counting from zero.  Reader: the harness passes the same source and
+   restarts its pulled counter; the result is the number of bytes pulled before.  Writer: the harness passes a fresh
+   sink that continues the sink script; the result is what the old sink had received. *)
+Definition rd_reset (s : reader) : Z * reader := (rpulled s, mkR (rbuf s) 0 0 0 (-1) 0 (rsrc s) 0).
+Definition w_reset (s : writer) : bytes * writer := (wout s, mkW [] (wcap s) 0 0 (wsink s) []).
